@@ -311,15 +311,6 @@ func (h *Handler) setupGraphs(prefix string) error {
 	return nil
 }
 
-func (h *Handler) dropGraphs(prefix string) {
-	for _, g := range store.GraphNames {
-		func() {
-			defer func() { recover() }()
-			h.st.DB.DeleteGraph(store.Name(prefix, g))
-		}()
-	}
-}
-
 // site extracts "panic message @ first grip frame" from a recovered panic.
 func site(r interface{}, stack string) string {
 	if i := strings.Index(stack, "\npanic("); i >= 0 {
@@ -572,12 +563,20 @@ func (h *Handler) Handle(req map[string]interface{}) interface{} {
 		attempts := 1
 		for {
 			prefix := fmt.Sprintf("h%vx%dx", req["i"], attempts)
+			t0 := time.Now()
 			if err := h.setupGraphs(prefix); err != nil {
 				resp["harness_err"] = "setup: " + err.Error()
 				return resp
 			}
+			t1 := time.Now()
 			delete(resp, "hang")
 			h.runStream(req, prefix, resp)
+			t2 := time.Now()
+			if os.Getenv("VERIF_BULK_TIMING") != "" {
+				defer func() {
+					fmt.Fprintf(os.Stderr, "timing setup=%v run=%v rest=%v\n", t1.Sub(t0), t2.Sub(t1), time.Since(t2))
+				}()
+			}
 			if _, hung := resp["hang"]; hung && attempts < 2 && resp["hang"] != "" {
 				// a missed deadline is reported only if it reproduces
 				attempts++
@@ -590,8 +589,7 @@ func (h *Handler) Handle(req map[string]interface{}) interface{} {
 				delete(resp, "crash")
 			}
 			resp["obs"] = store.Observe(h.st.DB, prefix)
-			h.dropGraphs(prefix)
-			return resp
+			return resp // the graphs stay: the store is replaced every 150 requests
 		}
 	case "edit":
 		prefix := fmt.Sprintf("h%vx", req["i"])
@@ -601,7 +599,6 @@ func (h *Handler) Handle(req map[string]interface{}) interface{} {
 		}
 		r, _ := req["req"].(map[string]interface{})
 		h.runEdit(r, prefix, resp)
-		h.dropGraphs(prefix)
 		return resp
 	}
 	resp["harness_err"] = "unknown kind"
